@@ -48,7 +48,8 @@ def make_board(spec):
     moves, rewards, loose = rg.gen_rnd_board(seed, length, width, p_loose, 6, fd)
     with tempfile.TemporaryDirectory(prefix="verif-board-") as d:
         path = os.path.join(d, "board.py")
-        rg.write_robots(path, length, width, moves, rewards, loose, p_tile, p_robot, p_light)
+        rg.write_robots(file_name=path, length=length, width=width, moves=moves, rewards=rewards, loose_tiles=loose,
+                         prob_tile_break=p_tile, prob_robot_break=p_robot, prob_light_break=p_light)
         return cr.read_dict_from_file(path)
 
 
